@@ -1,5 +1,5 @@
 (* Proofs/Redact.v (cfg, C20) *)
-From Coq Require Import List String Bool ZArith NArith Lia.
+From Coq Require Import List String Bool ZArith NArith Lia Ascii.
 From MV Require Import Lib.GoJson Lib.GoJsonFacts Gen.CfgTypes Model.Redact.
 Import ListNotations.
 Open Scope string_scope.
@@ -1088,3 +1088,60 @@ Proof.
   split; [vm_compute; reflexivity|].
   vm_compute. reflexivity.
 Qed.
+
+(* ================================================================================================ *)
+(* 8. the redaction of a text, whatever its spelling                                                *)
+(* ================================================================================================ *)
+(* for EVERY text (as a tree of spelled names and strings) that decodes at all: in the redaction no string member whose
+   DECODED name is private_key (any case) survives *)
+Theorem redact_text_no_leak : forall s j, redact_text s = Some j -> oks (key_strings j).
+Proof.
+  intros s j H. unfold redact_text in H. destruct (sdecode s) as [j0|]; [|discriminate].
+  cbn in H. inversion H; subst. apply blank_key_strings.
+Qed.
+
+Theorem redact_text_defined : forall s j0, sdecode s = Some j0 -> redact_text s = Some (blank_json_keys j0).
+Proof. intros s j0 H. unfold redact_text. rewrite H. reflexivity. Qed.
+
+(* the name is compared after unescaping: a string member, however its name and its value are spelled *)
+Theorem spelled_member_blanked : forall k lit rest k' v jr,
+  unescape k = Some k' -> key_eq k' tls_key_json = true -> unescape lit = Some v ->
+  sdecode (SObj rest) = Some (JObj jr) ->
+  exists jr', redact_text (SObj ((k, SStr lit) :: rest)) = Some (JObj ((k', JStr (if String.eqb v "" then v else placeholder)) :: jr')).
+Proof.
+  intros k lit rest k' v jr Hk Hkey Hv Hr.
+  assert (Hd : sdecode (SObj ((k, SStr lit) :: rest)) = Some (JObj ((k', JStr v) :: jr))).
+  { cbn [sdecode] in *. rewrite Hk, Hv. cbn [option_map].
+    destruct ((fix go (kvs : list (string * sjson)) : option (list (string * json)) :=
+                 match kvs with
+                 | [] => Some []
+                 | (k0, x) :: r => match unescape k0, sdecode x, go r with
+                                   | Some k'0, Some a, Some b => Some ((k'0, a) :: b)
+                                   | _, _, _ => None
+                                   end
+                 end) rest) as [l|]; [|discriminate].
+    cbn in Hr. inversion Hr; subst. reflexivity. }
+  rewrite (redact_text_defined _ _ Hd). cbn [blank_json_keys]. rewrite Hkey.
+  destruct (String.eqb v ""); eexists; reflexivity.
+Qed.
+
+(* a document whose text does not contain the name at all: every decoder reads private_key / Private_Key members *)
+Definition w_spelled : sjson :=
+  SObj [("enable", SBool false);
+        ("tls_context", SObj [("private\u005fkey", SStr "KEY-\u0045SC"); ("status", SBool true)]);
+        ("agents", SArr [SObj [("\u0050rivate\u005FKey", SStr "KEY-2")]])].
+
+Lemma spelled_witness :
+  contains tls_key_json (lower (sprint w_spelled)) = false /\
+  option_map key_strings (sdecode w_spelled) = Some ["KEY-ESC"; "KEY-2"] /\
+  option_map key_strings (redact_text w_spelled) = Some [placeholder; placeholder] /\
+  option_map (fun j => leaked (key_strings j)) (redact_text_prefiltered w_spelled) = Some ["KEY-ESC"; "KEY-2"].
+Proof. repeat split; vm_compute; reflexivity. Qed.
+
+Lemma unescape_examples :
+  unescape "private\u005fkey" = Some "private_key" /\ unescape "\u0050RIVATE\u005FKEY" = Some "PRIVATE_KEY" /\
+  unescape "a\/b\\c\""d\n" = Some (String "a" (String "/" (String "b" (String "\" (String "c" (String """" (String "d" (String (ascii_of_N 10) ""))))))))
+  /\ unescape "\u00e9" = Some (String (ascii_of_N 195) (String (ascii_of_N 169) "")) /\
+  unescape "\u4e2d" = Some (String (ascii_of_N 228) (String (ascii_of_N 184) (String (ascii_of_N 173) ""))) /\
+  unescape "\x" = None /\ unescape "\u12" = None /\ unescape "\ud83d" = None.
+Proof. repeat split; vm_compute; reflexivity. Qed.
